@@ -808,7 +808,10 @@ func c06CheckFeature(c C06Case, cx *h.Ctx) *h.Failure {
 	if dup := c06DuplicateTopLevelKey(out); dup != "" {
 		return h.Failf("feature/duplicate-member", "top-level member %q appears twice: %s", dup, out)
 	}
-	var back geom.GeoJSONFeature
+	// the destination already holds another feature (a variable reused in a decoding loop): nothing of it may survive
+	back := geom.GeoJSONFeature{Geometry: dirty(gm.Polygon), ID: "stale-id",
+		Properties:     map[string]interface{}{"stale_property": 1.0, "zz": "x"},
+		ForeignMembers: map[string]interface{}{"stale_foreign": true}}
 	if err := json.Unmarshal(out, &back); err != nil {
 		return h.Failf("feature/unmarshal-error", "feature does not decode: %v\n%s", err, out)
 	}
